@@ -111,7 +111,7 @@ ctlname = %s"size" / %s"bits" / %s"regexp" / %s"pcre" / %s"iregexp" / %s"cbor" /
 pub const RELAXATIONS: &[(&str, &str)] = &[
   ("c03:ws_before_generic_args", "type2 =/ typename WS S genericarg / \"~\" S typename WS S genericarg / \"&\" S groupname WS S genericarg\ngrpent =/ [occur S] groupname WS S genericarg\nrule =/ typename WS S genericparm S assignt S type / groupname WS S genericparm S assigng S grpent\n"),
   ("c03:lone_cr_whitespace", "WS =/ %x0D\nPCHAR =/ %x0D\n"),
-  ("c03:tag6_type_head_without_content", "type2 =/ \"#\" \"6\" \".\" \"<\" type \">\"\n"),
+  ("c03:tag6_type_head_without_content", "type2 =/ \"#\" \"6\" \".\" head-number\n"),
   ("c03:ws_in_tag_head_type", "head-number =/ \"<\" S type S \">\"\n"),
   ("c03:escaped_quote_in_bytes", "BCHAR =/ \"\\\"\n"),
   ("c03:any_escape_in_bytes", "BCHAR =/ \"\\\" %x20-7E / \"\\\" NONASCII\n"),
